@@ -59,6 +59,16 @@ def run_cxx(prog, variant, timeout=60):
     return ("ok" if rc == 0 else "crash"), lines, ("rc=%s %s" % (rc, e.strip()[-300:]))
 
 
+def compile_errors(prog, variant):
+    """complete compiler diagnostics of a program that does not compile (cxx_build keeps only their tail)"""
+    vt, fl, libs = VARIANTS[variant]
+    src = prog.source(); h = hashlib.sha256(src.encode()).hexdigest()[:12]
+    path = os.path.join(TMP, "%s_%s.cpp" % (prog.name, h))
+    if not os.path.exists(path): open(path, "w").write(src)
+    rc, out, err = sh([CXX] + BASEFLAGS + ["-DVT=" + vt] + fl + repo_includes() + ["-fsyntax-only", path], timeout=600)
+    return err
+
+
 def run_model(model, prog):
     p = os.path.join(TMP, prog.name + "_terms.txt")
     open(p, "w").write("\n".join(prog.terms()) + "\n")
@@ -185,18 +195,23 @@ def check_program(ck, model, prog, variants, origin, max_reports=3):
     nrep = 0
     for v in variants:
         cur = prog
-        for _round in range(4):
+        for _round in range(8):
             status, lines, detail = run_cxx(cur, v)
             if status == "compile":
+                # A generated statement the C++ type checker rejects is outside the property's quantifier (it ranges over
+                # well-typed expressions; a rejected one cannot yield a wrong value).  It is recorded in the evidence, dropped
+                # (its documented effect is re-created by element sets) and the rest of the shard is checked.  Constructs that
+                # must compile are pinned in the regression stream (_defects), where a compile failure IS reported.
                 src = cur.source().split("\n")
-                ls = sorted(set(int(x) for x in re.findall(r"_[0-9a-f]{12}\.cpp:(\d+):", detail)))
+                full = compile_errors(cur, v)
+                ls = sorted(set(int(x) for x in re.findall(r"_[0-9a-f]{12}\.cpp:(\d+):", full)))
                 ks = sorted(set(int(m.group(1)) for l in ls if l - 1 < len(src) for m in [re.search(r"P\(\); // (\d+)$", src[l - 1])] if m))
                 if not ks:
                     ck.violation("compile:unknown", {"program": cur.to_json(), "detail": detail[-3000:]}, "shard does not compile and no statement could be blamed", no_input=True)
                     break
-                for k in ks[:max_reports]:
-                    if nrep < max_reports: report_failure(ck, cur, k, v, origin); nrep += 1
-                # drop the statements and try again (their effect is re-created by element sets)
+                rej = ck.notes.setdefault("rejected_at_compile_time", [])
+                for k in ks:
+                    if len(rej) < 40: rej.append({"variant": v, "statement": G.Cxx(random.Random(7)).stmt(cur.stmts[k]), "shape": stmt_key(cur.stmts[k])})
                 cur = drop_statements(cur, ks)
                 continue
             e2 = cur.expected()
@@ -349,6 +364,79 @@ def sparse_stream(ck, model, rng, n):
     return check_program(ck, model, prog, ["long", "double_cblas"], "sparse-stream")
 
 
+def big_statement(g):
+    """statements for the big-shape shards: dense containers of size 16..33, every assignment form, sources that send
+    the assignment through the blocked / transposing kernels (same and opposite orientation, transposes, sub-ranges,
+    element-wise combinations, products)"""
+    rng = g.rng
+    def mvar(d): return ("MVar", d[1], d[2], d[3])
+    def vvar(d): return ("VVar", d[1], d[2])
+    def msrc(r, c, depth=2):
+        """a dense matrix expression of shape r x c"""
+        cands = []
+        for d in g.mats:
+            if (d[2], d[3]) == (r, c): cands += [mvar(d)] * 2
+            if (d[3], d[2]) == (r, c): cands += [("MTrans", mvar(d))] * 2
+            if d[2] >= r and d[3] >= c and (d[2], d[3]) != (r, c):
+                a = rng.randint(0, d[2] - r); b = rng.randint(0, d[3] - c); cands.append(("MRange", mvar(d), a, a + r, b, b + c))
+            if d[3] >= r and d[2] >= c and (d[3], d[2]) != (r, c):
+                a = rng.randint(0, d[3] - r); b = rng.randint(0, d[2] - c); cands.append(("MRange", ("MTrans", mvar(d)), a, a + r, b, b + c))
+        vr = [d for d in g.vecs if d[2] == r]; vc = [d for d in g.vecs if d[2] == c]
+        if vr and vc: cands.append(("MOuter", vvar(rng.choice(vr)), vvar(rng.choice(vc))))
+        if not cands: return None
+        e = rng.choice(cands)
+        if depth > 0:
+            u = rng.random()
+            if u < 0.2:
+                o = msrc(r, c, depth - 1)
+                if o is not None: e = ("MAdd", e, o)
+            elif u < 0.35:
+                o = msrc(r, c, depth - 1)
+                if o is not None: e = ("MBin", rng.choice(["BMul", "BMin", "BMax"]), e, o)
+            elif u < 0.45: e = ("MScale", rng.choice([-2, 2, 3]), e)
+            elif u < 0.6:
+                ks = sorted(set(d[3] for d in g.mats if d[2] == r) & set(d[2] for d in g.mats if d[3] == c))
+                if ks:
+                    k = rng.choice(ks); a = msrc(r, k, 0); b = msrc(k, c, 0)
+                    if a is not None and b is not None: e = ("MProd", 1, a, b)
+        return e
+    def vsrc(n, depth=1):
+        cands = [vvar(d) for d in g.vecs if d[2] == n]
+        for d in g.mats:
+            if d[3] == n: cands.append(("VRow", mvar(d), rng.randrange(d[2])))
+            if d[2] == n: cands.append(("VCol", mvar(d), rng.randrange(d[3])))
+            if d[2] == n and depth > 0:
+                v = vsrc(d[3], 0)
+                if v is not None: cands.append(("VMv", 1, mvar(d), v))
+            if d[3] == n and depth > 0:
+                v = vsrc(d[2], 0)
+                if v is not None: cands.append(("VMv", 1, ("MTrans", mvar(d)), v))
+        for d in g.vecs:
+            if d[2] > n: a = rng.randint(0, d[2] - n); cands.append(("VRange", vvar(d), a, a + n))
+        if not cands: return None
+        e = rng.choice(cands)
+        if depth > 0 and rng.random() < 0.3:
+            o = vsrc(n, 0)
+            if o is not None: e = ("VAdd", e, o)
+        return e
+    op = rng.choice(["OpSet", "OpSet", "OpAdd", "OpAdd", "OpSub", "OpMul"])
+    if rng.random() < 0.7:
+        d = rng.choice(g.mats); tgt = mvar(d); r, c = d[2], d[3]
+        u = rng.random()
+        if u < 0.2: tgt = ("MTrans", tgt); r, c = c, r
+        elif u < 0.4 and r > 2 and c > 2:
+            a = rng.randint(0, 2); b = rng.randint(0, 2); tgt = ("MRange", tgt, a, r - 1, b, c - 1); r, c = r - 1 - a, c - 1 - b
+        src = msrc(r, c)
+        if src is None: return None
+        noalias = rng.random() < 0.6 and ("m", d[1]) not in G.names_in(src)
+        return ("SAssignM", noalias, op, tgt, src)
+    d = rng.choice(g.vecs); tgt = vvar(d); n = d[2]
+    src = vsrc(n)
+    if src is None: return None
+    noalias = rng.random() < 0.6 and ("v", d[1]) not in G.names_in(src)
+    return ("SAssignV", noalias, op, tgt, src)
+
+
 def main():
     ck = Check(PID)
     ck.trusted = DEFAULT_TRUSTED + ["Python reference evaluator of the documented meaning (tools/c01_gen.py: vden/mden/exec_stmt) used as spec monitor, cross-checked against the extracted Coq interpreter on every program",
@@ -384,6 +472,15 @@ def main():
         stmts = g.program(150 if thorough else 110)
         # CBLAS only matters for floating point; long + REMORA_USE_CBLAS is exercised in the defect stream
         shards.append((Program(g.decls, g.orient, stmts, "shard%d" % i), [vt] if vt == "long" else [vt, vt + "_cblas"]))
+        for k, v in g.stats.items(): stats[k] = stats.get(k, 0) + v
+    # shapes around the 16x16 blocking of the dense kernels (sizes 16..33): the transposing / blocked assignment and
+    # product kernels behave differently from the small-shape paths (partial last blocks)
+    for i in range(4 if thorough else 1):
+        vt = "double" if i % 2 == 0 else "long"
+        g = G.Gen(random.Random(ck.rng.getrandbits(48)), integer_div=(vt == "long"), max_depth=3, big=True)
+        g.statement = (lambda gg: (lambda: big_statement(gg)))(g)
+        stmts = g.program(60 if thorough else 45)
+        shards.append((Program(g.decls, g.orient, stmts, "bigshard%d" % i), [vt] if vt == "long" else [vt, vt + "_cblas"]))
         for k, v in g.stats.items(): stats[k] = stats.get(k, 0) + v
     # compile all variants of all shards in parallel (4 jobs) before the sequential comparison
     from concurrent.futures import ThreadPoolExecutor
